@@ -93,7 +93,9 @@ def check_call(u, fn, args, self_obj=None, extra_env=None):
       return 'skip', None
   # old() snapshots
   ens = []
-  for e in u.get('ensures', []):
+  for i_, e in enumerate(u.get('ensures', [])):
+    if i_ in u.get('native_skip_ensures', []):
+      continue          # clause over ghost state (locals at return): deductive tier only
     code, olds = compile_clause(e)
     ens.append((e, code, [copy.deepcopy(eval(o, env)) for o in olds]))
   rs = {}
